@@ -1878,6 +1878,19 @@ Proof.
   unfold settle'. pose proof (ev_settle n ds) as H. destruct (settle n ds) as [[n1 o1] d]. exact H.
 Qed.
 
+Lemma ev_settle_app n ds : ev0 n (fst (fst (settle_app n ds))).
+Proof.
+  unfold settle_app.
+  pose proof (ev_io_iteration n ds) as H2. destruct (io_iteration n ds) as [[n2 o2] ds'].
+  pose proof (ev_flush n2) as H3. destruct (flush n2) as [n3 o3]. cbn [fst] in *.
+  eapply ev_trans; eassumption.
+Qed.
+
+Lemma ev_settle_app' n ds : ev0 n (fst (settle_app' n ds)).
+Proof.
+  unfold settle_app'. pose proof (ev_settle_app n ds) as H. destruct (settle_app n ds) as [[n1 o1] d]. exact H.
+Qed.
+
 (* ---- handlers ------------------------------------------------------------------------------------ *)
 Definition Qc (cid : nat) : nat -> Prop := fun j => j = cid.
 
@@ -2382,7 +2395,7 @@ Proof.
       [destruct (is_ready_state (c_state c))|]; cbn [snd]; apply ev_same; reflexivity. }
   destruct (route_answer n m) as [[cid|] n1]; cbn [snd] in H0; [|exact H0].
   pose proof (ev_send_message NoP NoP NoP n1 cid m) as H1. destruct (send_message n1 cid m) as [n2 o2].
-  pose proof (ev_settle' n2 ds) as H2. destruct (settle' n2 ds) as [n3 o3]. cbn [fst] in *. ev_chain.
+  pose proof (ev_settle_app' n2 ds) as H2. destruct (settle_app' n2 ds) as [n3 o3]. cbn [fst] in *. ev_chain.
 Qed.
 
 Lemma ev_step_app_request n ds i m realm pick tmo : ev0 n (fst (step n ds (EAppRequest i m realm pick tmo))).
@@ -2405,7 +2418,7 @@ Proof.
   assert (H3 : ev0 n1 n3) by (apply ev_same; reflexivity).
   clearbody n3 m'.
   pose proof (ev_send_message NoP NoP NoP n3 k m') as H4. destruct (send_message n3 k m') as [n4 o4].
-  pose proof (ev_settle' n4 ds) as H5. destruct (settle' n4 ds) as [n5 o5]. cbn [fst] in *. ev_chain.
+  pose proof (ev_settle_app' n4 ds) as H5. destruct (settle_app' n4 ds) as [n5 o5]. cbn [fst] in *. ev_chain.
 Qed.
 
 Lemma ev_dpr_all cids : forall n acc, ev0 n (fst (dpr_all cids n acc)).
